@@ -250,8 +250,17 @@ static std::vector<Req> all_requests(const Opts& o, vh::Rng& rng, bool with_adds
 }
 
 // one life of an objective function: construct (in poisoned storage), configure, set_up, requests
-static void run(vh::Trace& tr, const Sys& s, const Matrix& m, const Inst& in, const std::vector<Req>* fixed_reqs, vh::Rng& rng,
-                const std::string& scratch, bool write_sens) {
+// the public setters whose use after set_up requires a new set_up ("After using any of these, you have to call set_up()")
+static const char* setter_names[] = { "set_num_subsets", "set_max_segment_num_to_process", "set_zero_seg0_end_planes", "set_use_subset_sensitivities",
+                                      "set_proj_data_sptr", "set_input_data", "set_additive_proj_data_sptr", "set_normalisation_sptr",
+                                      "set_projector_pair_sptr", "set_sensitivity_filename" };
+static const int num_setters = 10;
+
+// setter >= 0: set-up protocol run - requests before set_up, set_up + requests, the setter, requests (all must be refused),
+// set_up again + requests
+static void run(vh::Trace& tr, const Sys& s, const Matrix& m, const Inst& in0, const std::vector<Req>* fixed_reqs, vh::Rng& rng,
+                const std::string& scratch, bool write_sens, int setter = -1) {
+  Inst in = in0;
   const Opts& o = in.o;
   shared_ptr<Img> lam = image_from(s, in.lam), x = image_from(s, in.x);
   std::vector<float> yf(in.y.begin(), in.y.end()), af(in.a.begin(), in.a.end());
@@ -326,6 +335,8 @@ static void run(vh::Trace& tr, const Sys& s, const Matrix& m, const Inst& in, co
     ji.num("pVal", std::llround(pvs)).arr("pGrad", gv).arr("pHess", hv).arr("pApprox", av).boolean("pEx", ex);
   }
   tr.emit(ji);
+  if (setter >= 0 && !reuse)
+    for (Kind k : { Value, Grad, GradPlusSens, Hess, ApproxHess }) do_request(tr, of, rec, Req{ k, 0, false }, *lam, *x, rng);   // use before set_up
 
   std::string msg;
   bool ok = false;
@@ -344,6 +355,26 @@ static void run(vh::Trace& tr, const Sys& s, const Matrix& m, const Inst& in, co
   return true;
   };
   if (!life(cur, false)) return;
+  if (setter >= 0) {
+    switch (setter) {
+    case 0: cur.N = cur.N == 2 ? 4 : 2; of.set_num_subsets(cur.N); break;
+    case 1: cur.maxseg = cur.maxseg == 1 ? 2 : 1; of.set_max_segment_num_to_process(cur.maxseg); break;
+    case 2: cur.zero = !cur.zero; of.set_zero_seg0_end_planes(cur.zero); break;
+    case 3: cur.uss = !cur.uss; of.set_use_subset_sensitivities(cur.uss); break;
+    case 4: for (auto& v : in.y) v *= 2;   // other data (still an exact instance: r doubled)
+            { std::vector<float> y2(in.y.begin(), in.y.end()); y = make_pd(s, s.t.proj_data_info, y2, false); }
+            of.set_proj_data_sptr(y); break;
+    case 5: of.set_input_data(y); break;
+    case 6: of.set_additive_proj_data_sptr(a); break;
+    case 7: of.set_normalisation_sptr(norm); break;
+    case 8: of.set_projector_pair_sptr(pp); break;
+    default: of.set_sensitivity_filename(""); break;
+    }
+    tr.emit(vh::Json("Setter").str("name", setter_names[setter]));
+    for (Kind k : { Value, Grad, GradPlusSens, Hess, ApproxHess }) do_request(tr, of, rec, Req{ k, 0, false }, *lam, *x, rng);   // must be refused
+    life(cur, true);
+    return;
+  }
   // every third object (random option sets only): change options through the setters and set the SAME object up again
   if (!fixed_reqs && !o.supplied && !write_sens && rng.range(0, 2) == 0) {
     cur.zero = rng.coin();
@@ -467,6 +498,30 @@ int main(int argc, char** argv) {
             }
             ++pi;
           } while (std::next_permutation(kinds.begin(), kinds.end()));
+        }
+  } else if (mode == "setters") {
+    // set-up protocol: every public setter x non-TOF / TOF x storage fill patterns
+    for (long rep = 0; rep < count; ++rep)
+      for (int t = 0; t < 2; ++t)
+        for (int st = 0; st < num_setters; ++st) {
+          Opts o;
+          o.tofsens = t == 1 && rng.coin();
+          o.additive = true;
+          o.norm = 1 + rng.range(0, 3);
+          o.zero = rng.coin();
+          o.maxseg = 1;
+          o.N = 2;
+          o.uss = true;
+          o.prior = false;
+          o.family = 1;
+          o.approx = true;
+          static const int fills[] = { 0x00, 0xFF, 0x01 };
+          o.fill = fills[(st + rep) % 3];
+          Matrix m = make_matrix(tr, sys[t], rng, 2, 2, true);
+          Inst in = make_inst(sys[t], m, rng, o);
+          std::vector<Req> reqs;
+          for (Kind k : { Value, Grad, GradPlusSens, Hess, ApproxHess, Sens }) reqs.push_back(Req{ k, (int)rng.range(0, 1), false });
+          run(tr, sys[t], m, in, &reqs, rng, scratch, false, st);
         }
   } else {
     fprintf(stderr, "unknown mode\n");
